@@ -265,3 +265,97 @@ Example C13_dump_idempotent_nonvacuous :
   /\ nodup_keys (class_table impexp_tables c_AuthorizationCode) = true
   /\ (exists D, dump_fields (class_table impexp_tables c_AuthorizationCode) [] ex_code = Ok D /\ assoc (PS "used") D = Some (VInt 1)).
 Proof. split; [vm_compute; reflexivity|]. split; [vm_compute; reflexivity|]. eexists. split; vm_compute; reflexivity. Qed.
+
+(* --- round 11 --- *)
+(* ---- file store: keys whose FILE NAMES are in prefix relation ----
+   quote_plus leaves '.', '-', '_', '~', letters and digits alone, so the value file of one key can be
+   the value file of another key plus a suffix ("https://rp.example.org" / "https://rp.example.org.uk",
+   "app" / "app.v2", "a" / "a." / "a.lock" / "a.lock.lock"); the lock file of a key lives beside its value
+   file under the name <value file>.lock.  A key OWNS exactly those two names. *)
+From Verif Require Import Model.FileStoreFrame Proofs.FileStoreFrame_proofs.
+
+(* an operation that names key k (set / get / del / in) changes nothing in the directory outside the two
+   names k owns and nothing in the instance's cache outside k's value name - in ANY state, for ANY name *)
+Theorem C13_filestore_keyed_op_touches_owned_names : forall s o k g,
+  op_key o = Some k -> owned (quote_plus k) g = false ->
+  assoc g (st_dir (fst (FileStore.step s o))) = assoc g (st_dir s)
+  /\ assoc g (st_cache (fst (FileStore.step s o))) = assoc g (st_cache s).
+Proof. exact keyed_step_touches_owned. Qed.
+Print Assumptions C13_filestore_keyed_op_touches_owned_names.
+
+(* the frame property in the directory: the value file of every OTHER key is left alone ... *)
+Theorem C13_filestore_frame_value_file : forall s o k k',
+  op_key o = Some k -> bytes_ok k = true -> bytes_ok k' = true -> k <> k' -> is_lock k' = false ->
+  assoc (quote_plus k') (st_dir (fst (FileStore.step s o))) = assoc (quote_plus k') (st_dir s).
+Proof. exact frame_value_file. Qed.
+Print Assumptions C13_filestore_frame_value_file.
+
+(* ... and so is its lock file, unless the operation names that very file (k = k' ++ ".lock") *)
+Theorem C13_filestore_frame_lock_file : forall s o k k',
+  op_key o = Some k -> bytes_ok k = true -> bytes_ok k' = true -> k <> k' -> k <> (k' ++ dot_lock)%list ->
+  assoc (lock_of (quote_plus k')) (st_dir (fst (FileStore.step s o)))
+  = assoc (lock_of (quote_plus k')) (st_dir s).
+Proof. exact frame_lock_file. Qed.
+Print Assumptions C13_filestore_frame_lock_file.
+
+(* the relation spelled out: one converted name is the other plus a non-empty suffix *)
+Theorem C13_filestore_beside_is_proper_prefix : forall f g,
+  beside f g = true <-> exists t, t <> [] /\ g = (f ++ t)%list.
+Proof. exact beside_spec. Qed.
+Print Assumptions C13_filestore_beside_is_proper_prefix.
+
+Theorem C13_filestore_frame_prefix_related_names : forall s o k k',
+  op_key o = Some k -> bytes_ok k = true -> bytes_ok k' = true ->
+  name_related k k' = true -> is_lock k' = false ->
+  assoc (quote_plus k') (st_dir (fst (FileStore.step s o))) = assoc (quote_plus k') (st_dir s).
+Proof. exact frame_related_names. Qed.
+Print Assumptions C13_filestore_frame_prefix_related_names.
+
+(* after ANY history, one more operation that is not clear() and does not name k' leaves what a NEW
+   instance over the directory reads for k' exactly as it was (every step is a crash point) *)
+Theorem C13_filestore_frame_new_instance : forall ops o k',
+  ops_ok ops = true -> op_ok o = true -> o <> OClear -> op_key o <> Some k' ->
+  assoc k' (observe_new (st_dir (fst (FileStore.run empty_store (ops ++ [o])))))
+  = assoc k' (observe_new (st_dir (fst (FileStore.run empty_store ops)))).
+Proof. exact frame_new_instance. Qed.
+Print Assumptions C13_filestore_frame_new_instance.
+
+(* in particular for keys whose converted names are in prefix relation: removing (writing, reading)
+   "https://rp.example.org" leaves "https://rp.example.org.uk" to every new instance, and vice versa *)
+Theorem C13_filestore_frame_new_instance_prefix_related : forall ops o k k',
+  ops_ok ops = true -> op_ok o = true -> op_key o = Some k -> name_related k k' = true ->
+  assoc k' (observe_new (st_dir (fst (FileStore.run empty_store (ops ++ [o])))))
+  = assoc k' (observe_new (st_dir (fst (FileStore.run empty_store ops)))).
+Proof. exact frame_new_instance_related. Qed.
+Print Assumptions C13_filestore_frame_new_instance_prefix_related.
+
+(* a key whose name is a lock name (k' = k ++ ".lock", k ++ ".lock.lock", ...) never holds a value *)
+Theorem C13_filestore_lock_name_key_holds_nothing : forall ops k,
+  ops_ok ops = true -> bytes_ok k = true -> is_lock k = true ->
+  assoc k (observe_new (st_dir (fst (FileStore.run empty_store ops)))) = None.
+Proof. exact lock_name_key_holds_nothing. Qed.
+Print Assumptions C13_filestore_lock_name_key_holds_nothing.
+
+(* the frame condition the driver's checker (chk_files) evaluates on the key family of a trace *)
+Theorem C13_filestore_frame_step_holds : forall fam s o,
+  forallb bytes_ok fam = true -> op_ok o = true ->
+  frame_step fam (st_dir s) (st_dir (fst (FileStore.step s o))) o = true.
+Proof. exact frame_step_holds. Qed.
+Print Assumptions C13_filestore_frame_step_holds.
+
+(* non-vacuity: URL-shaped client identifiers in prefix relation; the shorter one is removed while the
+   longer one holds a value *)
+Definition ex_short : bytes := PS "https://rp.example.org".
+Definition ex_long : bytes := PS "https://rp.example.org.uk".
+Definition ex_family_ops : list op :=
+  [OSet ex_short (PS "A"); OSet ex_long (PS "B"); OSet (ex_short ++ PS ".lock")%list (PS "no"); ODel ex_short; OReopen; OItems].
+Example C13_filestore_frame_nonvacuous :
+  name_related ex_short ex_long = true
+  /\ beside (quote_plus ex_short) (lock_of (quote_plus ex_short)) = true
+  /\ ops_ok ex_family_ops = true
+  /\ snd (FileStore.run empty_store ex_family_ops) =
+     [RUnit; RUnit; RErr ValueError; RUnit; RUnit; RItems [(ex_long, PS "B")]]
+  /\ map fst (st_dir (fst (FileStore.run empty_store ex_family_ops))) =
+     [lock_of (quote_plus ex_long); quote_plus ex_long].
+Proof. repeat split; vm_compute; reflexivity. Qed.
+(* --- end round 11 --- *)
